@@ -199,6 +199,7 @@ Proof.
   unfold handle_last_will. intros H.
   destruct (al_get str_eqb c (r_wills st)); [| inv_ok; apply rext_refl]. cbv zeta in H.
   destruct (negb (utf8_valid _)) in H; [inv_ok; apply rext_eq; reflexivity |].
+  match type of H with (if ?b then _ else _) = _ => destruct b end; [inv_ok; apply rext_eq; reflexivity |].
   apply bind_ok in H as ([st3 idxs] & H3 & H). apply bind_ok in H as (st4 & H4 & H).
   apply dl_matches_tk in H3. apply append_all_tk in H4. apply drain_notifications_rext in H.
   eapply rext_trans; [| exact H]. apply rext_eq.
